@@ -447,6 +447,15 @@ impl RefChunkEncoder {
         self.per.contains_key(&csid)
     }
 
+    pub fn had_ext(&self, csid: u32) -> bool {
+        self.per.get(&csid).map(|p| p.had_ext).unwrap_or(false)
+    }
+
+    /// (absolute timestamp, delta/field, length, type id, message stream id) of the last header on `csid`
+    pub fn prev(&self, csid: u32) -> Option<(u32, u32, u32, u8, u32)> {
+        self.per.get(&csid).map(|p| (p.abs, p.field, p.len, p.type_id, p.msid))
+    }
+
     /// Which header formats are legal for starting `msg` on `csid` (index = format).
     pub fn legal_formats(&self, csid: u32, msg: &RefMsg) -> [bool; 4] {
         let mut ok = [true, false, false, false];
